@@ -23,6 +23,7 @@ RULE = (
     "randomly turned into newlines, analysed with analyze(), analyze_async() and analyze_tags_from_string(); every returned span is judged. "
     "error cases: token-level mutations of such sources, random tag/expression fragments and markup soup, with \\n and \\r\\n line ends, parsed "
     "in strict mode; every LiquidError is judged. Non-trivial = >= 3 spans judged on a source with >= 2 lines, or an error raised; distinct by source."
+    " Rounds 5-6 added enumerated families: every line ending for the hand-written sources; partials under names that are not plain words."
 )
 REQUIRED = [
     ("liquid/static_analysis.py", "analyze"),
